@@ -206,5 +206,27 @@ def spell_sched(req):
     return {"tasks": tasks}
 
 
+def spell_macro_default(req):
+    """preprocess with the bound the code ships with; a pass that returns more than 20 M characters
+    without raising is reported as `unbounded` (keeps the unrepaired code from eating the machine)"""
+    import scriptplan.parser.macro_processor as mp
+    proc = mp.MacroProcessor()
+    orig_once = proc._expand_once
+
+    def once(content):
+        r = orig_once(content)
+        if len(r) > 20_000_000:
+            raise _Unbounded()
+        return r
+    proc._expand_once = once
+    try:
+        out = proc.process(req["text"])
+    except _Unbounded:
+        return {"outcome": "unbounded"}
+    except Exception as e:  # noqa: BLE001
+        return {"outcome": type(e).__name__, "msg": str(e)[:160]}
+    return {"outcome": "ok", "length": len(out)}
+
+
 OPS = {"resolve": op_resolve, "deps": op_deps, "macro": op_macro, "mdefs": op_mdefs, "strip": op_strip}
-JOPS = {"spell_sched": spell_sched, "spell_menv": spell_menv, "spell_charclass": spell_charclass}
+JOPS = {"spell_macro_default": spell_macro_default, "spell_sched": spell_sched, "spell_menv": spell_menv, "spell_charclass": spell_charclass}
